@@ -549,7 +549,7 @@ func TestVerifC14(t *testing.T) {
 	}
 	bfsCfgs := []bfsCfg{
 		{"full", c14FullAlphabet(), c14MaxStash, r.Pick(4, 5)},
-		{"reduced", c14ReducedAlphabet(2), 2, r.Pick(8, 10)},
+		{"reduced", c14ReducedAlphabet(2), 2, r.Pick(8, 40)}, // fixpoint at depth 23
 	}
 	if v := os.Getenv("C14_ONLY_REDUCED_DEPTH"); v != "" { // development knob
 		var d int
